@@ -110,7 +110,7 @@ Proof. exact no_inversion_satisfiable_l. Qed.
 Print Assumptions no_inversion_satisfiable.
 
 (* ... and it is NOT met by the code's sort (CPython's insertion with the partial comparator
-   _by_weight_then_from_protocol_specificity): finding F17.  The executable model reproduces it. *)
+   _by_weight_then_from_protocol_specificity): finding F21.  The executable model reproduces it. *)
 Theorem specific_first_refuted :
   exists c o o', adapt (env_of c) default_fuel = RAdapter [o] /\ In o' (e_offers (env_of c)) /\
                  single_candidate (env_of c) o' = true /\ better (env_of c) o' o = true /\
